@@ -50,7 +50,9 @@ def alphabet():
             ["add", "d", "and", ["zz"], ["c"], False], ["add", "d", "and", ["a"], ["a"], False], ["add", "v.q", "buf", None, None, False],
             ["add", "d", "buf", ["a", "b"], ["c"], False], ["add", "d", "xor", ["u.p"], ["c"], True]]
     for us, vs in [("a", "b"), ("b", "a"), ("a", "a"), (["a", "c"], "b"), ("a", ["b", "c"]), ("u.q", "c"), ("u.q", "b"),
-                   ("a", "u.p"), ("u.p", "b"), ("zz", "a"), (["a", "a"], "c"), ("c", "c"), ([], "a"), ("u.q", ["c", "b"])]:
+                   ("a", "u.p"), ("u.p", "b"), ("zz", "a"), (["a", "a"], "c"), ("c", "c"), ([], "a"), ("u.q", ["c", "b"]),
+                   (["a", "u.p"], "b"), (["a", "zz"], "b"), (["c", "u.q"], "b"), ("a", ["b", "a"]), (["a", "c"], ["b", "u.p"]),
+                   (["a", "b"], ["b", "c"]), (["c", "a"], "u.p")]:
         ops.append(["connect", us, vs])
     ops += [["disconnect", "a", "b"], ["disconnect", "zz", "a"], ["remove", "a"], ["remove", ["u.p"]], ["remove", "zz"],
             ["set_output", "a", True], ["set_output", "zz", True], ["set_output", ["b", "c"], False]]
